@@ -707,7 +707,7 @@ pub(super) fn translate_select_item(cid: rq::CId, ctx: &mut Context) -> Result<S
         // use expected name
         let ident = expected.cloned().unwrap_or_else(|| {
             // or use something that will not clash with other names
-            ctx.anchor.col_name.gen()
+            ctx.anchor.gen_column_name()
         });
         ctx.anchor.column_names.insert(cid, ident.to_string());
 
